@@ -24,7 +24,7 @@ SIZES = {"quick": dict(budget_s=45, batch=80), "thorough": dict(budget_s=600, ba
 FLOORS = {"nontrivial": 0.4}
 
 CLASSES = ["A", "B", "C", "D", "E", "F", "G", "H"]
-FIELDS = ["x", "y", "z"]
+FIELDS = ["x", "y", "z", "class_x", "delete1"]      # (two names that start with a keyword)
 
 
 @st.composite
@@ -59,13 +59,14 @@ def _body(draw, depth, known=(), avoid=()):
         if k in ("arrfield", "append"):
             arr_done = True
         if k == "field":
-            out.append(["field", draw(st.sampled_from(FIELDS)), draw(_value(0))])
+            # (now and then a name that is a class elsewhere: re-defining an entry with the other kind)
+            out.append(["field", draw(st.sampled_from(FIELDS if draw(st.integers(0, 9)) else CLASSES[:3])), draw(_value(0))])
         elif k == "arrfield":
             out.append(["arrfield", "arr", [draw(_value(1)) for _ in range(draw(st.integers(0, 3)))]])
         elif k == "append":
             out.append(["append", "arr", [draw(_value(0)) for _ in range(draw(st.integers(0, 2)))]])
         elif k == "class":
-            c = draw(st.sampled_from(CLASSES))
+            c = draw(st.sampled_from(CLASSES if draw(st.integers(0, 11)) else ["x", "y"]))
             out.append(["class", c, None, draw(_body(depth - 1, known, avoid))])
             known.append(c)
         elif k == "classbase":
@@ -218,9 +219,12 @@ class Model:
     def define_class(self, scope, name, base, body, is_fwd=False):
         existing = scope.entries.get(name)
         if existing is not None and existing.is_value:
-            self.ambiguous = True
-            self.amb.add(scope)
-            return
+            # the name was a value so far and is a class from now on (the last definition wins, it keeps its place in the order)
+            existing.is_value = False
+            existing.value = None
+            existing.entries = {}
+            existing.base = None
+            self.labels.add("retyped_entry")
         if existing is None:
             node = Node(name, scope)
             created = True
@@ -280,9 +284,14 @@ class Model:
                 name = s[1]
                 existing = scope.entries.get(name)
                 if existing is not None and not existing.is_value:
-                    self.ambiguous = True
-                    self.amb.add(scope)
-                    continue
+                    # the name was a class so far and is a value from now on: its entries and its base are gone
+                    existing.entries = {}
+                    existing.base = None
+                    existing.is_value = True
+                    existing.value = None
+                    self.labels.add("retyped_entry")
+                    # (classes derived from it have lost their base's content: leave them to the termination assertions)
+                    self.amb.add(existing)
                 val = py_value(s[2]) if k == "field" else [py_value(x) for x in s[2]]
                 if k == "append":
                     self.labels.add("append")
@@ -438,6 +447,25 @@ def check(case, env):
                 if kind:
                     v = viol("%s|%s" % (kind, "inherited" if inherited else "own"), ctx + msg)
                     break
+    if v is None:
+        # what a script does to an array it got from getArray must not change the config (neither the class nor its base)
+        arrs = [c for c in classes[:10] if not m.tainted(c) and (lambda e: e is not None and e.is_value and isinstance(e.value, list))(m.lookup(c, "arr"))][:4]
+        if arrs:
+            labs.add("getarray_then_mutate")
+            lines = ["T = [];"]
+            for c in arrs:
+                pth = _path_sqf(m.path_of(c))
+                lines.append('private _g = getArray (%s >> "arr"); _g pushBack 12345; _g set [0, 777]; {if (_x isEqualType []) then {_x pushBack 54321}} forEach _g;' % pth)
+            for c in arrs:
+                lines.append('T pushBack (getArray (%s >> "arr"));' % _path_sqf(m.path_of(c)))
+            rep = r.run("\n".join(lines), vm=0, getvars=["T"], getvars_struct=True, timeout=20.0)
+            if "T" in rep.get("vars", {}):
+                T2 = vm_value(rep["vars"]["T"]["value"])
+                for c, got2 in zip(arrs, T2):
+                    exp2 = m.lookup(c, "arr").value
+                    if got2 != exp2:
+                        v = viol("getarray-aliases-config", ctx + "after a script changed the array returned by getArray (%s >> \"arr\"), the config reads %s instead of %s" % (_path_sqf(m.path_of(c)), got2, exp2))
+                        break
     nontrivial = bool(labs & {"inherited_lookup", "reopen_later_text", "cycle_attempt", "delete", "append_inherited"})
     if m.ambiguous:
         labs.add("partly_asserted" if asserted > 15 else "only_termination_asserted")
